@@ -63,12 +63,12 @@ type Result struct {
 // Run executes the spec in a fresh child process of the runner binary.
 func Run(spec Spec, timeout time.Duration) (*Result, error) {
 	b, _ := json.Marshal(spec)
-	os.MkdirAll(spec.Dir, 0o755)
+	os.MkdirAll(filepath.Join(spec.Dir, "tmp"), 0o755)
 	cmd := exec.Command(harness.Self(), "child", "session")
 	cmd.Stdin = bytes.NewReader(b)
 	var out, errb bytes.Buffer
 	cmd.Stdout, cmd.Stderr = &out, &errb
-	cmd.Env = append(os.Environ(), "HOME="+spec.Dir, "XDG_CONFIG_HOME="+filepath.Join(spec.Dir, "config"), "PPROF_TMPDIR="+filepath.Join(spec.Dir, "tmp"), "PPROF_BINARY_PATH="+filepath.Join(spec.Dir, "bin"), "TZ=UTC",
+	cmd.Env = append(os.Environ(), "HOME="+spec.Dir, "XDG_CONFIG_HOME="+filepath.Join(spec.Dir, "config"), "PPROF_TMPDIR="+filepath.Join(spec.Dir, "tmp"), "PPROF_BINARY_PATH="+filepath.Join(spec.Dir, "bin"), "TZ=UTC", "TMPDIR="+filepath.Join(spec.Dir, "tmp"),
 		// no external viewers (sensible-browser etc.) or tools: commands that need them must report an error
 		"PATH="+filepath.Join(spec.Dir, "nopath"))
 	cmd.Dir = spec.Dir
